@@ -20,6 +20,12 @@ import time
 from . import core
 
 KNOWN_FILE = os.path.join(core.VERIF, 'KNOWN_FINDINGS.txt')
+# evidence and replays of runs against a scratch copy (self-validation with VERIF_REPO=...)
+# never touch the registered evidence
+if os.path.realpath(core.REPO) == '/repo':
+    OUTROOT = core.VERIF
+else:
+    OUTROOT = os.path.join(core.VERIF, '.work', 'alt', core.REPO.strip('/').replace('/', '_'))
 
 
 def load_known(prop):
@@ -195,7 +201,7 @@ def do_check(prop, mod, tier, seed, workdir):
     printed = set()
     if unknown:
         rc = 1
-        repdir = os.path.join(core.VERIF, 'replays', prop)
+        repdir = os.path.join(OUTROOT, 'replays', prop)
         os.makedirs(repdir, exist_ok=True)
         for v in unknown:
             rep = {'property': prop, 'tier': tier, 'seed': seed, 'shard': v['shard'],
@@ -246,7 +252,7 @@ def do_check(prop, mod, tier, seed, workdir):
         'wall_s': round(wall, 2),
         'violations': len(unknown),
     }
-    evdir = os.path.join(core.VERIF, 'evidence')
+    evdir = os.path.join(OUTROOT, 'evidence')
     os.makedirs(evdir, exist_ok=True)
     with open(os.path.join(evdir, f"{prop}.json"), 'w', encoding='utf-8') as f:
         json.dump(evidence, f, indent=1, sort_keys=True)
